@@ -324,6 +324,7 @@ int KSI_PKISignature_new(KSI_CTX *ctx, const void *raw, size_t raw_len, KSI_PKIS
 	int res;
 	KSI_PKISignature *tmp = NULL;
 	PKCS7 *pkcs7 = NULL;
+	const unsigned char *derEnd = NULL;
 
 	KSI_ERR_clearErrors(ctx);
 
@@ -345,6 +346,7 @@ int KSI_PKISignature_new(KSI_CTX *ctx, const void *raw, size_t raw_len, KSI_PKIS
 		goto cleanup;
 	}
 
+	derEnd = (const unsigned char *)raw + raw_len;
 	pkcs7 = d2i_PKCS7(NULL, (const unsigned char **)&raw, (int)raw_len);
 	if (pkcs7 == NULL) {
 		KSI_pushError(ctx, res = KSI_CRYPTO_FAILURE, NULL);
@@ -352,6 +354,12 @@ int KSI_PKISignature_new(KSI_CTX *ctx, const void *raw, size_t raw_len, KSI_PKIS
 	}
 
 	tmp->pkcs7 = pkcs7;
+
+	/* The signature has to be the whole value: octets after it are covered by nothing. */
+	if ((const unsigned char *)raw != derEnd) {
+		KSI_pushError(ctx, res = KSI_INVALID_FORMAT, "Unexpected data after the PKI signature.");
+		goto cleanup;
+	}
 
 	*signature = tmp;
 	tmp = NULL;
